@@ -31,11 +31,16 @@ RULE = ("scenario = a C03/C06/C07 scenario with events injected at quiescence on
         "within S; one evaluation = one pair of executions; non-trivial = an application instance ran and a non-default "
         "choice was taken; distinct by digest of the asyncio observation")
 ASSUMPTIONS = [
+    "scenarios with config.read_timeout set are compared like any other: clock jumps and lapses are environment events, "
+    "so a deadline armed on one worker only (a read deadline running while the reader is parked inside the protocol) "
+    "shows as schedule-shape-differs, its consequences as close-differs / client-events-differ",
     "mid-flight injections, transport pause/resume (asyncio buffers where trio blocks) and trio's own batch-order "
     "choices are outside the comparison",
     "what an application is sent after it has finished, the handler's exit status and log texts are not compared",
 ]
-BOUNDS_DOC = {"quick": "M=0, S<=2", "thorough": "M=0, S<=3"}
+BOUNDS_DOC = {"quick": "M=0, S<=2; includes the read_timeout scenarios of C06 (segmentation rt), C07 (histories *_rt) and C08 (release rtimeout, window 0), "
+                       "the keep_alive_timeout = 0 scenarios of C07 and the single-connection graceful_timeout = 0 scenarios of C15",
+              "thorough": "M=0, S<=3; read_timeout scenarios as quick"}
 BUDGET = {"quick": 300, "thorough": 1800}
 
 SETS = {
@@ -54,7 +59,7 @@ def scenarios(tier: str) -> List[Any]:
         for p in mod.scenarios(tier):
             if p[pos] != "asyncio":
                 continue
-            if name == "c06" and (p[4] not in ("whole",) and not (isinstance(p[4], tuple) and p[4][0] == "bound")):
+            if name == "c06" and (p[4] not in ("whole", "rt") and not (isinstance(p[4], tuple) and p[4][0] == "bound")):
                 continue
             if name == "c06" and tier == "quick" and len(p[1]) > 2:
                 continue
@@ -62,6 +67,8 @@ def scenarios(tier: str) -> List[Any]:
                 continue  # raising the runtime's own cancellation exception is not comparable across runtimes
             if name == "c15" and (len(p[2]) != 1 or p[3] != "none"):
                 continue  # one connection on the real worker_serve(): shutdown behaviour as the client sees it
+            # (C15's graceful_timeout = 0 variants are kept: what differs there is KF-C16-cancelled-request-cleanup again,
+            # the cancellation merely happens at the trigger instead of 3 s later - same keys on purpose)
             if name == "c07" and len(p) > 4:
                 continue
             if name == "c07" and p[2] == "h2_abort_paused":
